@@ -26,7 +26,7 @@ LEVEL_TEXT = (
     "relocation and image sections exist; undefined symbols carry no section; debug type references registered) whose debug-type "
     "table the loader's get_type traversal accepts (one open finding: a type cycle entered through a pointer/array raises KeyError); "
     "asc2bin(bin2asc b) = b for all byte lists (both sides of the 30-byte chunk rule); make_num(hex n) = n for all integers; "
-    "Archive.load(save a) = a. JSON text <-> tree is Python's json module (trusted). 'Linking reloaded objects gives identical "
+    "Archive.load(save a) = a (a value: the run compares the model with the first AND every later observation of the real loaded archive). JSON text <-> tree is Python's json module (trusted). 'Linking reloaded objects gives identical "
     "output' is evaluated on the real linker on every run, not proved (it follows from record equality only as far as the linker "
     "reads nothing but the compared fields)."
 )
@@ -42,7 +42,9 @@ RULE = (
     "constructed ObjectFile instances (unicode/quoted names, data sizes around the 30-byte chunk limit and large, negative "
     "addresses/addends, undefined and absolute symbols, images, entry symbol, empty sections, debug info with struct/pointer/array "
     "type graphs incl. cycles), plus malformed JSON trees for the loader. distinct = distinct (op, request line) sent to the model; "
-    "non-trivial = object with >=1 relocation or symbol or debug info, chunked data, negative number, or an error outcome"
+    "non-trivial = object with >=1 relocation or symbol or debug info, chunked data, negative number, or an error outcome. "
+    "archives: every loaded archive is observed repeatedly (iter x3, .objs len/index, save, re-save chains, == both ways) and "
+    "used as a link library four times on generated libraries with forward/backward/mutual member dependencies"
 )
 TRUSTED = [
     "hand model Model.ObjSer of objectfile.py serialize/deserialize, debuginfo.py DictSerializer/DictDeserializer, binary_txt.py, "
